@@ -16,7 +16,8 @@ LEVEL_TEXT = ("(a) All grammar keywords (frozen list of 87 + whatever the workin
               "index, sequence, type, domain); every position takes each of 7 identifier forms (one position at a time, all positions at "
               "once; thorough: all pairs) under normalize_names False/True. Expected output = the plain-name result with each name replaced "
               "by its written form (False) or that form minus exactly one outer delimiter pair (True); everything else must be unchanged."
-              " Identifier forms also include delimited names that contain their own doubled delimiter or a dash, and the words ASC / DESC (compared by value in grammar actions) in lower and capitalised spelling as column names inside key lists.")
+              " Identifier forms also include delimited names that contain their own doubled delimiter or a dash, and the words ASC / DESC (compared by value in grammar actions) in lower and capitalised spelling as column names inside key lists."
+              " Keyword-named columns are also placed after a column that carries a CHECK clause.")
 LEVEL_NOTE = ("Identifier forms: lower, Mixed, UPPER, x_1, \"Dq\", `bt`, [br]. Spelling is identical between a declaration and the clauses that "
               "cite it. The plain-name result is itself validated against explicit JSON paths once per run.")
 RULE = ("case = (keyword, case, position, context, listing) or (form assignment to naming positions, normalize flag); non-trivial = the "
